@@ -98,8 +98,14 @@ pub fn build_object<'a, K: AsRef<str>>(
     let mut key_data = Vec::new();
     let mut val_data = Vec::new();
     let mut val_jentries = VecDeque::new();
-    for (key, value) in items.into_iter() {
-        let key = key.as_ref();
+    // the keys of a `JSONB` object are stored sorted and unique,
+    // if a key is duplicated, the last value is kept.
+    let items: Vec<(K, &'a [u8])> = items.into_iter().collect();
+    let mut entries = BTreeMap::new();
+    for (key, value) in items.iter() {
+        entries.insert(key.as_ref(), *value);
+    }
+    for (key, value) in entries.into_iter() {
         // write key jentry and key data
         let encoded_key_jentry = (STRING_TAG | key.len() as u32).to_be_bytes();
         buf.extend_from_slice(&encoded_key_jentry);
